@@ -68,3 +68,23 @@ pub fn compare_trailer(expected: &ADoc, loaded: &Document, opts: Opts, what: &st
     let act = canon::strip_trailer(&loaded.trailer, from_stream);
     canon::dict_eq(&exp, &act, opts, "trailer", false).map_err(|e| viol!("trailer-differs", "{}: {}", what, e))
 }
+
+/// Hook H2: while the guard lives, the random bytes lopdf's security handler draws on this thread (salts, IVs,
+/// padding) are a deterministic stream, so that an encryption case replays and shrinks.
+pub struct FixedLopdfRng;
+
+impl FixedLopdfRng {
+    pub fn new(seed: u64) -> Self {
+        #[cfg(lopdf_verif)]
+        lopdf::verif_hooks::set_rng_seed(Some(seed));
+        let _ = seed;
+        FixedLopdfRng
+    }
+}
+
+impl Drop for FixedLopdfRng {
+    fn drop(&mut self) {
+        #[cfg(lopdf_verif)]
+        lopdf::verif_hooks::set_rng_seed(None);
+    }
+}
